@@ -38,9 +38,13 @@ const (
 	tsA  = 2 // tombstone for A
 	lkB  = 3 // lock for B
 	objC = 4 // small: with A it forms a flush batch (flushBatch / PutBatch path)
+	objD = 5 // larger than the whole write-cache: the cache refuses it and the shard writes it to the blobstor directly
 )
 
-var sizes = map[int]int{objA: 4, objB: 60, objC: 5}
+// wcCapacity is the write-cache capacity used by the histories (A, B, C fit together, D never does).
+const wcCapacity = 900
+
+var sizes = map[int]int{objA: 4, objB: 60, objC: 5, objD: 1200}
 
 type opT struct {
 	Name string
@@ -53,6 +57,8 @@ func ops() []opT {
 		{"Put(A)", func(w *ss.World) { w.Sh.Put(ss.Obj(objA, sizes[objA]), nil) }},
 		{"Put(B)", func(w *ss.World) { w.Sh.Put(ss.Obj(objB, sizes[objB]), nil) }},
 		{"Put(C)", func(w *ss.World) { w.Sh.Put(ss.Obj(objC, sizes[objC]), nil) }},
+		{"Put(D)", func(w *ss.World) { w.Sh.Put(ss.Obj(objD, sizes[objD]), nil) }},
+		{"Delete(D)", func(w *ss.World) { w.Sh.Delete(ss.Cnr, ids(objD)) }},
 		{"Put(T->A)", func(w *ss.World) { w.Sh.Put(ss.Tombstone(tsA, objA, 0), nil) }},
 		{"MarkGarbage(A)", func(w *ss.World) { w.Sh.MarkGarbage(ss.Cnr, ids(objA), meta.GarbageMarkDefault) }},
 		{"MarkRedundant(B)", func(w *ss.World) { w.Sh.MarkGarbage(ss.Cnr, ids(objB), meta.GarbageMarkRedundant) }},
@@ -80,7 +86,7 @@ func liveCheck(w *ss.World, res *result) int {
 	db := w.Sh.VerifSSMetabase()
 	wcT := fstree.New(fstree.WithPath(w.WCDir()), fstree.WithDepth(1))
 	wcT.Open(true)
-	for i := 0; i <= objC; i++ {
+	for i := 0; i <= objD; i++ {
 		ex, err := db.Exists(ss.Addr(i), false)
 		if err != nil || !ex {
 			continue
@@ -115,7 +121,7 @@ type result struct {
 }
 
 var blobs = func() map[int][]byte {
-	m := map[int][]byte{objA: ss.Obj(objA, sizes[objA]).Marshal(), objB: ss.Obj(objB, sizes[objB]).Marshal(), tsA: ss.Tombstone(tsA, objA, 0).Marshal(), lkB: ss.Lock(lkB, objB, 0).Marshal(), objC: ss.Obj(objC, sizes[objC]).Marshal()}
+	m := map[int][]byte{objA: ss.Obj(objA, sizes[objA]).Marshal(), objB: ss.Obj(objB, sizes[objB]).Marshal(), tsA: ss.Tombstone(tsA, objA, 0).Marshal(), lkB: ss.Lock(lkB, objB, 0).Marshal(), objC: ss.Obj(objC, sizes[objC]).Marshal(), objD: ss.Obj(objD, sizes[objD]).Marshal()}
 	return m
 }()
 
@@ -162,7 +168,7 @@ func scenario(wc bool, depth int, pre int) sched.Scenario {
 		res := &result{Root: root, WC: wc}
 		s.Result = res
 		live := filepath.Join(root, "live")
-		w, err := ss.New(s, live, ss.Opts{WriteCache: wc, RmBatch: 10})
+		w, err := ss.New(s, live, ss.Opts{WriteCache: wc, RmBatch: 10, WCMaxSize: wcCapacity})
 		if err != nil {
 			panic(err)
 		}
@@ -266,7 +272,7 @@ func concurrent(early bool, pre int) sched.Scenario {
 		res := &result{Root: root, WC: true, Concurrent: true}
 		s.Result = res
 		live := filepath.Join(root, "live")
-		w, err := ss.New(s, live, ss.Opts{WriteCache: true, RmBatch: 10})
+		w, err := ss.New(s, live, ss.Opts{WriteCache: true, RmBatch: 10, WCMaxSize: wcCapacity})
 		if err != nil {
 			panic(err)
 		}
@@ -356,7 +362,7 @@ func checkImage(im image, res *result) (string, string) {
 	wcT := fstree.New(fstree.WithPath(filepath.Join(im.Dir, "wc")), fstree.WithDepth(1))
 	blob.Open(true)
 	wcT.Open(true)
-	for i := 0; i <= objC; i++ {
+	for i := 0; i <= objD; i++ {
 		want := blobs[i]
 		ex, err := db.Exists(ss.Addr(i), false)
 		if err != nil || !ex {
@@ -377,12 +383,12 @@ func checkImage(im image, res *result) (string, string) {
 			}
 		}
 		if !ok {
-			kind := map[int]string{objA: "regular-small", objB: "regular-big", tsA: "tombstone", lkB: "lock", objC: "regular-small"}[i]
+			kind := map[int]string{objA: "regular-small", objB: "regular-big", tsA: "tombstone", lkB: "lock", objC: "regular-small", objD: "regular-bypassing-the-write-cache"}[i]
 			last := "none"
 			if len(im.After) > 0 {
 				last = im.After[len(im.After)-1]
 			}
-			last = strings.NewReplacer("(A)", "", "(B)", "", "(C)", "", "(T->A)", "-tombstone", "(Lock->B)", "-lock").Replace(last)
+			last = strings.NewReplacer("(A)", "", "(B)", "", "(C)", "", "(D)", "", "(T->A)", "-tombstone", "(Lock->B)", "-lock").Replace(last)
 			if res.Concurrent {
 				// a loss that needs the concurrent new upload: name the mechanism, not the crash point
 				mech := "flusher-had-not-written-it-before-the-removal"
@@ -412,7 +418,7 @@ func main() {
 		}
 		scs = append(scs, deep...)
 	}
-	r.Rule(fmt.Sprintf("every history of <=%d operations over {Put(A small), Put(B big), Put(C small), Put(tombstone->A), MarkGarbage(A), MarkRedundant(B), Delete(A), Delete(B), Put(lock->B), GC pass, FlushWriteCache} with and without write-cache (default schedule; thorough also <=1 preemption for depth 3), a crash image at every scheduling point (lock, channel, blobstor call, metabase call) and after every operation; plus the closed concurrent scenarios (put A,C | remove A and upload it again while the background flusher handles the batch) under <=1 (thorough <=2) preemptions with a crash image at every point; distinct images reopened and checked; non-trivial = distinct (write-cache, multiset of operations) classes", depth))
+	r.Rule(fmt.Sprintf("every history of <=%d operations over {Put(A small), Put(B big), Put(C small), Put(D larger than the write-cache), Delete(D), Put(tombstone->A), MarkGarbage(A), MarkRedundant(B), Delete(A), Delete(B), Put(lock->B), GC pass, FlushWriteCache} with and without write-cache (default schedule; thorough also <=1 preemption for depth 3), a crash image at every scheduling point (lock, channel, blobstor call, metabase call) and after every operation; plus the closed concurrent scenarios (put A,C | remove A and upload it again while the background flusher handles the batch) under <=1 (thorough <=2) preemptions with a crash image at every point; distinct images reopened and checked; non-trivial = distinct (write-cache, multiset of operations) classes", depth))
 	r.Assume("process-crash model: the copied files are what the kernel holds at that point; a metabase call (one bbolt transaction) is atomic", "the write-cache FSTree and the blobstor FSTree write whole files (no combined files)")
 	sched.Main(r, scs, 0)
 }
